@@ -377,6 +377,8 @@ def doc_case(run, rng, i):
         f[3] = f[3].replace(":", ";")
     if ":" in f[2] and gsec != "Parameter":
         f[2] = f[2].replace(":", ";")
+    if gsec == "Parameter" and ":" in f[1]:
+        f[1] = f[1].replace(":", ";")     # (units with a colon inside ~Parameter: the corner of the structured stream and its known finding)
     u = f[1]
     if len(u) >= 2 and ((u[0] == "[" and u[-1] == "]") or (u[0] == "(" and u[-1] == ")")):
         f[1] = "Q" + u          # a bracketed unit is un-bracketed by the reader (documented): not what this stream is about
